@@ -16,12 +16,15 @@ def isExact (v : Str) : Bool :=
   | '\\' :: _ => true
   | _ => false
 
+/-- exactness of a token: bit-string value strings (`x"ff"`) are quoted but not string literals -/
+def Tok.exact (t : Tok) : Bool := isExact t.val && t.kind != .codeCI
+
 section proj
 variable (fold : Str → Str)
 
 /-- what a token contributes to the code sequence of C01 -/
 def codeOf (t : Tok) : List Str :=
-  if t.isCode then [if isExact t.val then t.val else fold t.val] else []
+  if t.isCode then [if t.exact then t.val else fold t.val] else []
 
 /-- C01: the folded sequence of code tokens -/
 def codeSeq (l : List Tok) : List Str := l.flatMap (codeOf fold)
@@ -86,7 +89,7 @@ theorem LayoutOnly.commentSeq {a b : List Tok} (h : LayoutOnly a b) : commentSeq
 /-- one token differs from another in letter case only -/
 def tokCaseEq (s t : Tok) : Bool :=
   s.cls == t.cls && s.kind == t.kind && s.val.length == t.val.length &&
-    (if isExact s.val || !s.isCode then s.val == t.val else fold s.val == fold t.val && !isExact t.val)
+    (if s.exact || !s.isCode then s.val == t.val else fold s.val == fold t.val && !t.exact)
 
 /-- `CaseOnly a b`: same tokens position by position, values of equal length that agree after
     case folding, literals and all non-code tokens identical -/
@@ -101,15 +104,21 @@ theorem tokCaseEq_codeOf {s t : Tok} (h : tokCaseEq fold s t = true) : codeOf fo
   unfold tokCaseEq at h
   simp only [Bool.and_eq_true, beq_iff_eq] at h
   obtain ⟨⟨⟨_, hk⟩, _⟩, hv⟩ := h
-  unfold codeOf Tok.isCode
-  rw [hk]
-  by_cases hc : (t.kind == Kind.code) = true
+  have hcode : s.isCode = t.isCode := by unfold Tok.isCode; rw [hk]
+  unfold codeOf
+  rw [hcode]
+  by_cases hc : t.isCode = true
   · simp only [hc, if_true]
-    have hsc : s.isCode = true := by unfold Tok.isCode; rw [hk]; exact hc
-    by_cases he : isExact s.val = true
-    · simp [he] at hv; rw [← hv]
-    · simp [he, hsc] at hv
-      simp [he, hv.2, hv.1]
+    by_cases he : s.exact = true
+    · simp only [he, Bool.true_or, if_true, beq_iff_eq] at hv
+      have het : t.exact = true := by
+        unfold Tok.exact at he ⊢; rw [← hv, ← hk]; exact he
+      simp [he, het, hv]
+    · have he' : s.exact = false := by simpa using he
+      have hsc : s.isCode = true := by rw [hcode]; exact hc
+      simp only [he', hsc, Bool.not_true, Bool.or_false, Bool.false_eq_true, if_false, Bool.and_eq_true,
+        beq_iff_eq, Bool.not_eq_true'] at hv
+      simp [he', hv.2, hv.1]
   · simp [hc]
 
 theorem CaseOnly.codeSeq {a b : List Tok} (h : CaseOnly fold a b) : codeSeq fold a = codeSeq fold b := by
